@@ -135,6 +135,32 @@ def run(ctx):
                             ctxinfo = dict(case=label, via=via, with_index=with_index, api=api, file=data.hex())
                             if stream is not None and stream.closed:
                                 viol("TdmsFile.%s closed the caller's stream (%s)" % (api, label), **ctxinfo)
+                            if api == "open" and via == "path":
+                                # the constructor used directly, in the combinations the class methods never pass: data read eagerly AND the
+                                # file kept open; closed explicitly and through the with-block
+                                for how in ("close()", "with"):
+                                    stats["steps"] += 1
+                                    base_k = open_fds(tmp)      # (the file opened by this case's TdmsFile.open is still open here)
+                                    try:
+                                        if how == "with":
+                                            with T(p, keep_open=True) as fk:
+                                                pass
+                                        else:
+                                            fk = T(p, keep_open=True)
+                                            fk.close()
+                                    except Exception:
+                                        fk = None
+                                    left = open_fds(tmp)
+                                    if left != base_k:
+                                        viol("after TdmsFile(path, keep_open=True) and %s descriptors remain open: %s (%s)" % (how, left, label), **ctxinfo)
+                                    if fk is not None:
+                                        try:
+                                            late = next(iter(fk.data_chunks()), None)
+                                        except Exception:
+                                            late = None
+                                        if late is not None:
+                                            viol("TdmsFile(path, keep_open=True): data_chunks() after %s delivered a chunk instead of raising" % how, **ctxinfo)
+                                    del fk
                             if api == "read" and via == "path":
                                 # the same call with arguments that make it fail AFTER the files were opened: a memmap_dir that does not
                                 # exist, and one that is a file
